@@ -1011,7 +1011,7 @@ class IMAPClientCommand:
         reference_input = self.input
         self.list_reference: str = self._p_astring()
         self.input = reference_input
-        self.mailbox_name = self._p_mailbox()
+        self.mailbox_name = self._p_mailbox(strip_prefix=False)
         self._p_simple_string(" ")
 
         # Mailbox pattern(s): either a single list-mailbox or a
@@ -2028,7 +2028,7 @@ class IMAPClientCommand:
 
     #######################################################################
     #
-    def _p_mailbox(self) -> str:
+    def _p_mailbox(self, strip_prefix: bool = True) -> str:
         """mailbox ::= 'INBOX' / astring
 
         INBOX is case-insensitive.  All case variants of INBOX (e.g. 'iNbOx')
@@ -2060,6 +2060,13 @@ class IMAPClientCommand:
                 raise BadSyntax(
                     value=f"'{mbox_name}' is not a valid mailbox name"
                 )
+
+            # `/` is the prefix of our name space, but it is not used
+            # internally. Remove it here so that no command ever takes the
+            # name for an absolute path in the file system.
+            #
+            if strip_prefix and mbox_name.startswith("/"):
+                mbox_name = mbox_name[1:]
         return mbox_name
 
     #######################################################################
